@@ -130,7 +130,8 @@ func (t *Tree[E]) sequenceEnded(pos int) {
 }
 
 func (t *Tree[E]) playGame(a, b int) (loser, winner int) {
-	if t.nodes[a].value < t.nodes[b].value {
+	// An ended sequence (holding maxVal) must lose to a live sequence whose current value is equal to maxVal.
+	if t.nodes[a].value < t.nodes[b].value || t.nodes[b].index == -1 {
 		return b, a
 	}
 	return a, b
